@@ -216,11 +216,29 @@ func checkWireSliceBounds(c *core.Ctx, rule string, fns []*ssa.Function) int {
 				if !bounded {
 					for _, cd := range ir.Conds(fn) {
 						cmp, isB := cd.V.(*ssa.BinOp)
-						if !isB || cmp.Op != token.LSS {
+						// i < count, or i != count for a counter that starts at 0 and steps by one
+						if !isB || (cmp.Op != token.LSS && cmp.Op != token.NEQ) {
 							continue
 						}
-						if _, isPhi := cmp.X.(*ssa.Phi); !isPhi {
+						cphi, isPhi := cmp.X.(*ssa.Phi)
+						if !isPhi {
 							continue
+						}
+						if cmp.Op == token.NEQ {
+							zero, unit := false, false
+							for _, e := range cphi.Edges {
+								if k, isK := ir.ConstInt(e); isK && k == 0 {
+									zero = true
+								}
+								if bo, isBo := e.(*ssa.BinOp); isBo && bo.Op == token.ADD && bo.X == ssa.Value(cphi) {
+									if k, isK := ir.ConstInt(bo.Y); isK && k == 1 {
+										unit = true
+									}
+								}
+							}
+							if !zero || !unit {
+								continue
+							}
 						}
 						if cmp.Y != root {
 							continue // a converted bound (int(count)) may have wrapped
